@@ -2,6 +2,8 @@
 from .. import facts
 from ..prover import Ctx, Lin, analyze, V_slice, V_int, UNKNOWN, V_struct, entails, counter_model
 from ..util import fns_by_key, keyname, norm, last
+from ..prov import Prov
+from ..common import method
 from . import c01, c05
 
 LEVEL = "other"
@@ -9,6 +11,7 @@ LEVEL = "other"
 
 def run(ck, tier):
     ck.rule("R-C03-apply", "O4 under the documented precondition span.start <= span.end <= source.len(): every fallible operation of Suggestion::apply (element stores/loads, split_off, the length subtraction) is in range")
+    ck.rule("R-C03-copy", "applying a suggestion only moves characters: every character stored into the text by Suggestion::apply is a copy of a character of the text itself or of the suggestion's own characters - no stored value passes through a computing call (case mapping, arithmetic, a closure); so what lies outside the flagged span is carried over unchanged")
     ck.rule("R-C03-rebase", "the chunk cache re-bases lint spans symmetrically (pull_by before put, push_by after get, same offset): same rule instance as R-C05-key (d)")
     ck.not_decided += ["that applying a suggestion yields exactly the spliced text (value-level)", "that every rule's lint span lies inside the text (41 match_to_lint bodies, values)"]
     p = facts.load()
@@ -64,7 +67,8 @@ def run(ck, tier):
                 ck.undecided("R-C03-apply", key, f.loc(r["ln"]), r["what"] + ": not decided (opaque ingredient); facts %s" % r["facts"][:6])
             else:
                 ck.refuted("R-C03-apply", key, f.loc(r["ln"]), "%s fails inside the precondition, e.g. %s" % (r["what"], r["model"]))
-        ck.floor("R-C03-apply", "fallible operations in Suggestion::apply", n, 6)
+        ck.floor("R-C03-apply", "fallible operations in Suggestion::apply", n, 3)
+    _copy_only(ck, p, byk)
     # re-basing: shared rule
     c05._key(c05._Sub(_Only(ck, ("chunk-cache:rebase", "chunk-cache:get:chars", "chunk-cache:put:chars")), "R-C03-rebase", ""), p, byk)
 
@@ -131,3 +135,50 @@ class _Only:
 
     def saw(self, f):
         self.ck.saw(f)
+
+
+COPYING = {"index", "index_mut", "deref", "deref_mut", "next", "enumerate", "iter", "iter_mut", "copied", "cloned", "clone", "into_iter", "skip", "take", "unwrap", "expect", "get", "get_mut",
+           "as_ref", "as_mut", "as_slice", "as_mut_slice", "borrow", "borrow_mut", "split_off", "drain", "len", "start", "end", "into", "from", "rev", "zip", "chain", "peekable", "by_ref", "extend", "to_vec", "to_owned"}
+
+
+def _copy_only(ck, p, byk):
+    from ..common import arg_roots as roots_of
+    from ..util import with_closures
+    rule = "R-C03-copy"
+    fs = [x for x in byk.get("Suggestion::apply", []) if x.name.startswith("harper_core::")]
+    if not fs:
+        return
+    f = fs[0]
+    n = 0
+    bad = []
+    for b in with_closures(p, f):
+        pv = Prov(b)
+        for blk in b.blocks:
+            if blk["cleanup"]:
+                continue
+            for sx in blk["s"]:
+                if sx["k"] != "assign" or len(sx["lhs"]) < 2 or "*" not in sx["lhs"]:
+                    continue
+                base = sx["lhs"][0]
+                ty = b.local_tystr(base)
+                if "char" not in ty:
+                    continue
+                n += 1
+                if sx["rv"]["k"] != "use":
+                    bad.append((sx["ln"], "a computed value (%s)" % sx["rv"]["k"]))
+                    continue
+                for o in roots_of(b, pv, sx["rv"]["op"]):
+                    if o[0] == "call":
+                        nm = last(norm(o[3] or o[2] or ""))
+                        if nm not in COPYING:
+                            bad.append((sx["ln"], "the result of %s" % nm))
+                    elif o[0] in ("bin", "un"):
+                        bad.append((sx["ln"], "an arithmetic result"))
+        # transforming adaptors on what is appended to the text
+        for bi, t in b.calls():
+            if method(t) in ("map", "map_while", "filter_map", "flat_map", "scan", "fold", "for_each", "retain", "retain_mut", "dedup_by", "fill", "fill_with", "swap", "reverse", "sort", "rotate_left", "rotate_right", "make_ascii_uppercase", "make_ascii_lowercase"):
+                bad.append((t["ln"], "a %s over the characters" % method(t)))
+    if bad:
+        ck.refuted(rule, "Suggestion::apply:stores", f.loc(bad[0][0]), "a character written into the text is %s, not a copy of an existing character or of the suggestion: applying the suggestion changes text it was not asked to change" % bad[0][1])
+    else:
+        ck.proved(rule, "Suggestion::apply:stores", f.span, "%d character stores; each copies a character of the text or of the suggestion (only index/iter/copied/split_off/extend on the way)" % n)
